@@ -19,7 +19,7 @@ RULE = ("seeded random expression trees (depth <= 5) over the documented grammar
         "(d/dt * x and x' notations); all must equal the independent AST evaluation (float64, cross-checked with 40-digit mpmath; "
         "ill-conditioned trees discarded); non-trivial = tree has >= 4 nodes; distinct = distinct tree hash")
 DECIDING = ['eval_node_values', 'generated_function_values', 'spellings_compared', 'index_expressions', 'ddt_notation', 'prime_notation',
-            'hostile_names', 'rewritten_variable_values', 'derived_label_neighbour_values', 'index_expressions_generated']
+            'hostile_names', 'rewritten_variable_values', 'derived_label_neighbour_values', 'index_expressions_generated', 'literal_equations']
 ASSUMPTIONS = ['sigmoid is the logistic function, maxi/mini are element-wise maximum/minimum', 'argument domains are kept safe by construction',
                'ill-conditioned expressions (float64 vs mpmath differ by more than 1e-11 relative) are discarded']
 CASE_TIMEOUT = 240
@@ -376,6 +376,10 @@ def run_case(case, ctx):
             msg = index_checks(rnd, mech)
             if msg:
                 raise observe.Mismatch(msg)
+            for _ in range(4):
+                msg = literal_equation_checks(rnd, mech)
+                if msg:
+                    raise observe.Mismatch(msg)
         res.update(status='ok', symptom='', mech=mech, sample={'expressions': samples})
     except observe.Mismatch as ex:
         s = str(ex)
@@ -430,6 +434,38 @@ def index_checks(rnd, mech, only_negated=False):
         if not abs(got - float(exp)) <= 1e-9 * max(1.0, abs(float(exp))):
             return f"generated function gives {got!r} for {s!r}, numpy indexing gives {float(exp)!r}"
         mech['index_expressions_generated'] = mech.get('index_expressions_generated', 0) + 1
+    return None
+
+
+def literal_equation_checks(rnd, mech):
+    """equations whose whole right-hand side is a number: several of them in one model, with equal, nearly equal and clearly
+    different values; every derivative must be exactly the number written"""
+    from pyrates import OperatorTemplate, NodeTemplate, CircuitTemplate
+    base = rnd.choice([0.0, 1.5, 6.2832, 1e-3, 250.0, 3.0])
+    lits = [base, base + rnd.choice([2.5e-9, 1e-8, base * 3e-6 if base else 4e-9, 1e-7])]
+    lits.append(rnd.choice([base, lits[1], base + 0.37, 2 * math.pi if abs(base - 6.2832) < 1 else base * 2 + 0.11]))
+    texts = []
+    for v in lits:
+        style = rnd.choice(['repr', 'repr', 'sci'])
+        texts.append(repr(v) if style == 'repr' else f"{v:.17e}")
+    if abs(lits[2] - 2 * math.pi) < 1e-12:
+        texts[2] = '2*pi'
+    names = ['xa', 'xb', 'xc']
+    eqs = [f"{n}' = {t}" if rnd.random() < 0.5 else f"d/dt * {n} = {t}" for n, t in zip(names, texts)]
+    eqs.append("xd' = -xd + xa")
+    variables = {'xa': 'output(0.1)', 'xb': 'variable(0.2)', 'xc': 'variable(0.3)', 'xd': 'variable(0.4)'}
+    op = OperatorTemplate(name='lit_op', equations=eqs, variables=variables)
+    c = CircuitTemplate(name='c', nodes={'n': NodeTemplate(name='nt', operators=[op])})
+    try:
+        f, args, nm, smap = c.get_run_func('vf', step_size=1e-3, vectorize=False, verbose=False, clear=True, float_precision='float64')
+        dy = np.asarray(f(0, np.array(args[1], dtype=float), *args[2:])).ravel()
+    except Exception as ex:
+        return f"loud: model with literal-only equations {eqs} raised {type(ex).__name__}: {ex}"
+    for n, v in zip(names, lits):
+        got = float(dy[smap[f'n/lit_op/{n}']])
+        if not abs(got - v) <= 1e-15 * max(1.0, abs(v)) + 0.0:
+            return f"equation {n}' = {v!r} (one of {eqs[:3]}) evaluates to {got!r} in the generated function"
+        mech['literal_equations'] = mech.get('literal_equations', 0) + 1
     return None
 
 
